@@ -26,45 +26,64 @@ r_vis = make_r_sub("R-vis", r"pub\(crate\) ", "pub ", min_count=0)
 
 ENGINE_UNPARSE = r"""
 // ---- the theorem instantiated with each engine's precedence table ------------------------------------------------------------------------
-// abstract trees over the crate's BinOper: every expression that is neither a binary operation nor NOT is an atom (written as one
-// self-delimiting group, or inside parentheses)
+// abstract trees over the crate's BinOper: every expression that is neither a binary operation, BETWEEN .. AND nor NOT is an atom (written
+// as one self-delimiting group, or inside parentheses)
 pub open spec fn ut_prec(e: Engine, op: BinOper) -> int { match prec_bin(e, op) { Some(p) => p, None => 0 } }   // operators outside the table (custom): operands always parenthesised
+// x BETWEEN lo AND hi  /  x NOT BETWEEN lo AND hi: the ternary operators, their keyword is the AND token
+pub open spec fn ut_kw(op: BinOper) -> Option<BinOper> { if op == BinOper::Between || op == BinOper::NotBetween { Some(BinOper::And) } else { None } }
 // what the contracts of binary_expr / prepare_between_bound / the NOT arm guarantee about an operand written WITHOUT parentheses
-// (safe_bare / safe_bare_left of this unit, on abstract trees)
+// (safe_bare / safe_bare_left / between_bounds_ok of this unit, on abstract trees)
+pub open spec fn ut_top(c: UT<BinOper>) -> Option<BinOper> { match c { UT::Bin(o, _, _) => Some(o), UT::Tern(o, _, _, _) => Some(o), _ => None } }
 pub open spec fn ut_safe(e: Engine, c: UT<BinOper>, outer: Oper) -> bool {
-    match c { UT::Atom(_) => true, UT::Bin(iop, _, _) => prec_bin(e, iop) is Some && prec(e, outer) is Some && prec_bin(e, iop)->Some_0 > prec(e, outer)->Some_0, UT::Not(_) => false }
+    c is Atom || (ut_top(c) is Some && prec_bin(e, ut_top(c)->Some_0) is Some && prec(e, outer) is Some && prec_bin(e, ut_top(c)->Some_0)->Some_0 > prec(e, outer)->Some_0)
 }
 pub open spec fn ut_safe_left(e: Engine, c: UT<BinOper>, op: BinOper) -> bool {
     ut_safe(e, c, Oper::BinOper(op)) || (c matches UT::Bin(iop, _, _) && iop == op && left_assoc(e, op))
 }
-pub open spec fn engine_table(e: Engine, dl: spec_fn(UT<BinOper>, BinOper) -> bool, dr: spec_fn(UT<BinOper>, BinOper) -> bool, dn: spec_fn(UT<BinOper>) -> bool) -> UpTable<BinOper> {
-    UpTable { prec: |op: BinOper| ut_prec(e, op), prec_not: prec_not(e), dl: dl, dr: dr, dn: dn }
+pub struct UtPrinter {     // a printer's parenthesis decisions (any)
+    pub dl: spec_fn(UT<BinOper>, BinOper) -> bool, pub dr: spec_fn(UT<BinOper>, BinOper) -> bool, pub dn: spec_fn(UT<BinOper>) -> bool,
+    pub da: spec_fn(UT<BinOper>, BinOper) -> bool, pub db: spec_fn(UT<BinOper>, BinOper) -> bool,
 }
-// C05, the global statement: ANY parenthesis decisions that respect the local conditions proved for binary_expr and the NOT arm
-// re-parse, under engine e's table, to the tree that was built
-pub proof fn theorem_unparse_engine(e: Engine, dl: spec_fn(UT<BinOper>, BinOper) -> bool, dr: spec_fn(UT<BinOper>, BinOper) -> bool, dn: spec_fn(UT<BinOper>) -> bool, t: UT<BinOper>)
-    requires
-        forall|c: UT<BinOper>, op: BinOper| #[trigger] dl(c, op) ==> ut_safe_left(e, c, op),
-        forall|c: UT<BinOper>, op: BinOper| #[trigger] dr(c, op) ==> ut_safe(e, c, Oper::BinOper(op)),
-        forall|c: UT<BinOper>| #[trigger] dn(c) ==> ut_safe(e, c, Oper::UnOper(UnOper::Not)),
-    ensures ({ let tb = engine_table(e, dl, dr, dn); up_parse_e(tb, up_print(tb, t), 0, UP_MIN) == Some((t, up_print(tb, t).len() as int)) })
+pub open spec fn engine_table(e: Engine, p: UtPrinter) -> UpTable<BinOper> {
+    UpTable { prec: |op: BinOper| ut_prec(e, op), prec_not: prec_not(e), dl: p.dl, dr: p.dr, dn: p.dn, kw: |op: BinOper| ut_kw(op), da: p.da, db: p.db }
+}
+// the printer omits parentheses only where the contracts proved in this unit allow
+pub open spec fn ut_printer_respects_contracts(e: Engine, p: UtPrinter) -> bool {
+    &&& forall|c: UT<BinOper>, op: BinOper| #[trigger] (p.dl)(c, op) ==> ut_safe_left(e, c, op)
+    &&& forall|c: UT<BinOper>, op: BinOper| #[trigger] (p.dr)(c, op) ==> ut_safe(e, c, Oper::BinOper(op))
+    &&& forall|c: UT<BinOper>| #[trigger] (p.dn)(c) ==> ut_safe(e, c, Oper::UnOper(UnOper::Not))
+    &&& forall|c: UT<BinOper>, op: BinOper| #[trigger] (p.da)(c, op) ==> ut_safe(e, c, Oper::BinOper(op))
+    &&& forall|c: UT<BinOper>, op: BinOper| #[trigger] (p.db)(c, op) ==> ut_safe(e, c, Oper::BinOper(op))
+}
+// C05, the global statement: ANY parenthesis decisions that respect the local conditions proved for binary_expr, prepare_between_bound and
+// the NOT arm re-parse, under engine e's table, to the tree that was built (BETWEEN / NOT BETWEEN used as ternary operators only)
+pub proof fn theorem_unparse_engine(e: Engine, p: UtPrinter, t: UT<BinOper>)
+    requires ut_printer_respects_contracts(e, p), up_wf(engine_table(e, p), t),
+    ensures ({ let tb = engine_table(e, p); up_parse_e(tb, up_print(tb, t), 0, UP_MIN) == Some((t, up_print(tb, t).len() as int)) })
 {
     reveal(prec_bin);
-    let tb = engine_table(e, dl, dr, dn);
+    let tb = engine_table(e, p);
     assert(up_printer_ok(tb)) by {
         assert forall|op: BinOper| #[trigger] (tb.prec)(op) > UP_MIN by { }
         assert forall|c: UT<BinOper>, op: BinOper| #[trigger] (tb.dl)(c, op) implies up_safe_l(tb, c, op) by { }
         assert forall|c: UT<BinOper>, op: BinOper| #[trigger] (tb.dr)(c, op) implies up_safe_r(tb, c, op) by { }
         assert forall|c: UT<BinOper>| #[trigger] (tb.dn)(c) implies up_safe_n(tb, c) by { }
+        assert forall|c: UT<BinOper>, op: BinOper| #[trigger] (tb.da)(c, op) implies up_safe_r(tb, c, op) by { }
+        assert forall|c: UT<BinOper>, op: BinOper| #[trigger] (tb.db)(c, op) implies up_safe_r(tb, c, op) by { }
+        assert forall|op: BinOper| (#[trigger] (tb.kw)(op)) is Some implies (tb.prec)((tb.kw)(op)->Some_0) <= (tb.prec)(op) by { }
     }
     theorem_unparse(tb, t);
 }
-// .. in particular the MOST permissive printer the contracts allow (every omission they permit is taken): no precondition left
+// .. in particular the MOST permissive printer the contracts allow (every omission they permit is taken): no hypothesis about the printer left
+pub open spec fn ut_most_permissive(e: Engine) -> UtPrinter {
+    UtPrinter { dl: |c: UT<BinOper>, op: BinOper| ut_safe_left(e, c, op), dr: |c: UT<BinOper>, op: BinOper| ut_safe(e, c, Oper::BinOper(op)), dn: |c: UT<BinOper>| ut_safe(e, c, Oper::UnOper(UnOper::Not)),
+                da: |c: UT<BinOper>, op: BinOper| ut_safe(e, c, Oper::BinOper(op)), db: |c: UT<BinOper>, op: BinOper| ut_safe(e, c, Oper::BinOper(op)) }
+}
 pub proof fn corollary_unparse_most_permissive(e: Engine, t: UT<BinOper>)
-    ensures ({ let tb = engine_table(e, |c: UT<BinOper>, op: BinOper| ut_safe_left(e, c, op), |c: UT<BinOper>, op: BinOper| ut_safe(e, c, Oper::BinOper(op)), |c: UT<BinOper>| ut_safe(e, c, Oper::UnOper(UnOper::Not)));
-               up_parse_e(tb, up_print(tb, t), 0, UP_MIN) == Some((t, up_print(tb, t).len() as int)) })
+    requires up_wf(engine_table(e, ut_most_permissive(e)), t)
+    ensures ({ let tb = engine_table(e, ut_most_permissive(e)); up_parse_e(tb, up_print(tb, t), 0, UP_MIN) == Some((t, up_print(tb, t).len() as int)) })
 {
-    theorem_unparse_engine(e, |c: UT<BinOper>, op: BinOper| ut_safe_left(e, c, op), |c: UT<BinOper>, op: BinOper| ut_safe(e, c, Oper::BinOper(op)), |c: UT<BinOper>| ut_safe(e, c, Oper::UnOper(UnOper::Not)), t);
+    theorem_unparse_engine(e, ut_most_permissive(e), t);
 }
 """
 
